@@ -55,9 +55,9 @@ type ardSim struct {
 	mycall   string
 	// behaviour
 	ackThenFaultDone bool
-	ackThenFault     bool // witness of the known finding: unrelated BUFFER report, then CRCFAULT
-	staleZero        bool // before acknowledging a second or later write, report BUFFER 0 for the previous one
-	faultNext        int  // answer the next n data frames with CRCFAULT
+	ackThenFault     bool   // witness of the known finding: unrelated BUFFER report, then CRCFAULT
+	staleZero        bool   // before acknowledging a second or later write, report BUFFER 0 for the previous one
+	faultNext        int    // answer the next n data frames with CRCFAULT
 	earlyDial        []byte // ARQ payload delivered between CONNECTED and the MYCALL reply of a dial
 	refuseDial       bool
 	buffered         int
@@ -312,7 +312,7 @@ func ardDecodeImpl(ftype byte, isTCP bool, chunks [][]byte) string {
 
 func runC14(ctx *Ctx) error {
 	r, res := ctx.Rng, ctx.Res
-	res.Rule = "(1) correspondence: crc16Sum on random byte strings vs the model and vs an independent register implementation; writeCtrlFrame in both modes; readFrameOfType driven as decodeTNCStream drives it over random streams (serial: command and data frames mixed; TCP: one kind), split arbitrarily, with truncations, flipped bytes, data frames of 0..2 bytes, of 65533..65535 bytes and unknown type bytes, vs the model's decoder; parseCtrlMsg on known commands with and without parameters, 'now ' echoes, case variations, lists, numbers incl. out of range, and random printable lines. (2) end-to-end against a scripted ARDOP TNC in serial mode (one in-memory link delivering at most 1..64 bytes per read) and, where loopback TCP is available, in TCP mode (two sockets): Open (INITIALIZE..GRIDSQUARE), Dial or Listen/Accept (with a first ARQ frame arriving before Accept is called, or between CONNECTED and the end of Dial), ARQ frames of 0..65532 bytes interleaved with PTT, BUFFER, BUSY, IDF/FEC frames and unknown lines, Read with random buffer sizes incl. a slow reader, Write incl. > 65535 bytes and CRCFAULT injections (1, 2 and 3 faults; also while another subscriber of the TNC's status messages (TNC.ListenEnabled) has stopped reading them), Flush that must not return before BUFFER 0, Close, TNC.Close. Oracles from the property text: Read = concatenation of ARQ payloads in order; the TNC keeps frames whose payloads concatenate to the bytes Write reported as accepted, each frame with correct prefix/length/CRC (checked by the simulator's own CRC code); retransmissions are byte-identical; PTT calls equal the PTT lines in order; malformed input gives errors, not crashes. The wire frames and the PTT/queue outcome are also compared with the model. Non-trivial: scenario moving data in both directions with link pieces smaller than a frame; distinct by scenario parameters."
+	res.Rule = "(1) correspondence: crc16Sum on random byte strings vs the model and vs an independent register implementation; writeCtrlFrame in both modes; readFrameOfType driven as decodeTNCStream drives it over random streams (serial: command and data frames mixed; TCP: one kind), split arbitrarily, with truncations, flipped bytes, data frames of 0..2 bytes, of 65533..65535 bytes and unknown type bytes, vs the model's decoder; parseCtrlMsg on known commands with and without parameters, 'now ' echoes, case variations, lists, numbers incl. out of range, and random printable lines. (2) end-to-end against a scripted ARDOP TNC in serial mode (one in-memory link delivering at most 1..64 bytes per read) and, where loopback TCP is available, in TCP mode (two sockets): Open (INITIALIZE..GRIDSQUARE), Dial or Listen/Accept (with a first ARQ frame arriving before Accept is called, or between CONNECTED and the end of Dial), ARQ frames of 0..65532 bytes interleaved with PTT, BUFFER, BUSY, IDF/FEC frames and unknown lines, Read with random buffer sizes incl. a slow reader, Write incl. > 65535 bytes and CRCFAULT injections (1, 2 and 3 faults; also while another subscriber of the TNC's status messages (TNC.ListenEnabled) has stopped reading them), Flush that must not return before BUFFER 0, Close, a second session on the same TNC after ARQ-typed frames heard while disconnected, TNC.Close. Oracles from the property text: Read = concatenation of ARQ payloads in order; the TNC keeps frames whose payloads concatenate to the bytes Write reported as accepted, each frame with correct prefix/length/CRC (checked by the simulator's own CRC code); retransmissions are byte-identical; PTT calls equal the PTT lines in order; malformed input gives errors, not crashes. The wire frames and the PTT/queue outcome are also compared with the model. Non-trivial: scenario moving data in both directions with link pieces smaller than a frame; distinct by scenario parameters."
 	log.SetOutput(io.Discard)
 
 	var lines, impl, sites []string
@@ -1109,6 +1109,34 @@ func (sc c14Scenario) run(r Rng) (fails []Failure, extra [][3]string) {
 			if len(raw) < 20000 {
 				extra = append(extra, [3]string{"control-dispatch", "ardctrl b1 " + tx(raw), "concat:" + hexs(all) + " " + tl(pt)})
 			}
+		}
+		// ---- a second session on the same TNC: what the TNC delivered while no session was up
+		// (monitored traffic comes as ARQ-typed frames too) is not part of the new stream
+		if sc.fault == "" && sc.id%5 == 1 {
+			sim.arq([]byte("stale: heard while disconnected"))
+			time.Sleep(5 * time.Millisecond)
+			c2, err := tnc.Dial(sc.peer)
+			if err != nil {
+				fail("redial", "second Dial on the same TNC: %v", err)
+				return
+			}
+			want := []byte("second session")
+			sim.arq(want)
+			var got []byte
+			c2.SetReadDeadline(time.Now().Add(5 * time.Second))
+			for len(got) < len(want) {
+				buf := make([]byte, 256)
+				n, rerr := c2.Read(buf)
+				got = append(got, buf[:n]...)
+				if rerr != nil {
+					fail("read-stream", "second session: Read: %v after %d of %d bytes", rerr, len(got), len(want))
+					break
+				}
+			}
+			if !bytes.Equal(got, want) {
+				fail("read-stream", "second session: Read yielded %q, the TNC sent %q for this session", trunc(string(got)), string(want))
+			}
+			c2.Close()
 		}
 	}
 	done, p := runWithTimeout(15*time.Second, body)
